@@ -273,14 +273,21 @@ Definition launch_ex (k : cfg) (pl : plan) (r : rs) : list eff :=
     match cache_hit k r with
     | Some _ => []
     | None =>
-      match f_create pl with
-      | POk => [ECreate POk]
-      | PCreateErr => [ECreate PCreateErr]
-      | PGeneric => [ECreate PGeneric]
-      | o => [ECreate o; EDelLaunch (eff_wr (r_pc r) (f_del_launch pl))]
+      match pclass_of (f_create pl) with
+      | CkOk => [ECreate POk]
+      | CkCreateErr | CkGeneric => [ECreate (f_create pl)]
+      | _ => [ECreate (f_create pl); EDelLaunch (eff_wr (r_pc r) (f_del_launch pl))]
       end
     end
   end.
+
+(* case split on the provider's answer the way launchNodeClaim's switch does *)
+Ltac dcreate pl :=
+  unfold pclass_of;
+  let ch := fresh "ch" in
+  destruct (f_create pl) as [|ch];
+  [|destruct (has_layer YInsufficient ch) eqn:?;
+    [|destruct (has_layer YNotReady ch) eqn:?; [|destruct (has_layer YCreateErr ch) eqn:?]]].
 
 Lemma cache_hit_norm k r : cache_hit k (set_im r (norm (r_im r))) = cache_hit k r.
 Proof. reflexivity. Qed.
@@ -300,7 +307,7 @@ Proof.
   unfold deleted_by_launch. unfold launch, launch_ex, populate, err_of_wr. rewrite cache_hit_norm. simpl.
   destruct (match c_l (r_im r) with LAbsent => LAwait | x => x end); try reflexivity;
     destruct (cache_hit k r); try reflexivity;
-    destruct (f_create pl); simpl; try reflexivity;
+    dcreate pl; simpl; try reflexivity;
     destruct (eff_wr (r_pc r) (f_del_launch pl)); reflexivity.
 Qed.
 
@@ -337,7 +344,7 @@ Proof.
   - intros H Hp. rewrite Hp. assert (Hn : c_l (norm (r_im r)) <> LTrue) by (intros X; apply H, norm_l_true, X).
     simpl in Hn.
     destruct (match c_l (r_im r) with LAbsent => LAwait | x => x end) eqn:E; try congruence;
-    destruct (f_create pl); simpl;
+    dcreate pl; simpl;
       try (left; (split; [reflexivity|split; [congruence|split; [reflexivity|split; [congruence|reflexivity]]]]));
       try (right; destruct (eff_wr (r_pc r) (f_del_launch pl)); simpl;
            (split; [reflexivity|split; [reflexivity|split; [congruence|split; [reflexivity|reflexivity]]]])).
@@ -420,7 +427,10 @@ Lemma launch_ex_cap k pl r post :
   forall rest, nocreate rest = true -> cap_deletes_b post (launch_ex k pl r ++ rest) = true.
 Proof.
   unfold deleted_by_launch. unfold launch_ex. intros H rest Hr.
-  repeat bm; simpl in *; try (apply nocreate_cap; exact Hr);
+  destruct (c_l (norm (r_im r))); try (apply nocreate_cap; exact Hr);
+    (destruct (cache_hit k r); [apply nocreate_cap; exact Hr|]);
+    dcreate pl; unfold is_cap; simpl in *;
+    repeat match goal with E : has_layer _ _ = _ |- _ => rewrite E in *; clear E end; simpl in *;
     rewrite ?(nocreate_cap _ _ Hr); try reflexivity;
     destruct (eff_wr (r_pc r) (f_del_launch pl)); simpl in *; try reflexivity; rewrite H; reflexivity.
 Qed.
